@@ -2,6 +2,7 @@
 Package parser implements a parser for JavaScript.
 
 	import (
+	"errors"
 	    "github.com/robertkrimen/otto/parser"
 	)
 
@@ -35,6 +36,7 @@ package parser
 import (
 	"bytes"
 	"encoding/base64"
+	"errors"
 	"fmt"
 	"io"
 	"os"
@@ -218,7 +220,16 @@ func ParseFunction(parameterList, body string) (*ast.FunctionLiteral, error) {
 		return nil, err
 	}
 
-	return program.Body[0].(*ast.ExpressionStatement).Expression.(*ast.FunctionLiteral), nil
+	// The text must have parsed as exactly the one wrapping function literal:
+	// a body such as "}) + (function(){" closes it early and yields something else.
+	if len(program.Body) == 1 {
+		if statement, ok := program.Body[0].(*ast.ExpressionStatement); ok {
+			if function, ok := statement.Expression.(*ast.FunctionLiteral); ok {
+				return function, nil
+			}
+		}
+	}
+	return nil, errors.New("Unexpected token )")
 }
 
 // Scan reads a single token from the source at the current offset, increments the offset and
